@@ -480,6 +480,32 @@ def run_impl(case):
             p_ = _sub.run([_sys.executable, "-W", "ignore", "-c", script, arg], env=env_, capture_output=True, text=True, timeout=120)
             outs.append(p_.stdout.strip().splitlines()[-1] if p_.returncode == 0 and p_.stdout.strip() else f"error: {p_.stderr[-200:]}")
         out["hashseed_runs"] = outs
+    # the documented knob score_analysis.scores.SINGLE_PASS_SAMPLE_THRESHOLD (BootstrapConfig docstring), set by the user after
+    # import: "dynamic" on a plain Scores object resolves against the CURRENT value
+    if case["kind"] == "scores" and sp["type"] == "builtin" and sp["sampling_method"] == "dynamic" and not sp.get("smoothing") \
+            and "metric_err" not in out and "sampler_err" not in out and m["type"] == "name" and m["name"] != "eer":
+        import score_analysis.scores as SS
+        saved_T = SS.SINGLE_PASS_SAMPLE_THRESHOLD
+        knob = []
+        try:
+            o_ = make_obj()
+            n_min = min(len(o_.pos), len(o_.neg))
+            for T_ in (max(n_min, 1), n_min + 1):
+                SS.SINGLE_PASS_SAMPLE_THRESHOLD = T_
+                want = "replacement" if n_min < T_ else "single_pass"
+                res2 = []
+                for sm_ in ("dynamic", want):
+                    cfg_ = BootstrapConfig(nb_samples=case["nb_samples"], bootstrap_method=case["bootstrap_method"], sampling_method=sm_,
+                                           stratified_sampling=sp["stratified"])
+                    np.random.seed(sp["seed"])
+                    try:
+                        res2.append(flat(make_obj().bootstrap_metric(metric, config=cfg_, **_kwargs_of(case["metric"]["kwargs"], np))))
+                    except Exception as ex:
+                        res2.append([type(ex).__name__])
+                knob.append([T_, n_min, want, res2[0] == res2[1]])
+        finally:
+            SS.SINGLE_PASS_SAMPLE_THRESHOLD = saved_T
+        out["knob"] = knob
     return out
 
 
@@ -736,6 +762,11 @@ def _oracle_one(case, r):
                 fails.append(("C14/identity", f"identity sampler: component {j} interval ({C13._num(ci[(j * nz + k_) * 2])}, "
                                               f"{C13._num(ci[(j * nz + k_) * 2 + 1])}) is not the point estimate {C13._num(h)}"))
                 break
+    for T_, n_min, want, ok_ in r.get("knob") or []:
+        if not ok_:
+            fails.append(("C14/config/dynamic-threshold", f"with score_analysis.scores.SINGLE_PASS_SAMPLE_THRESHOLD = {T_} set after import, "
+                          f"'dynamic' on a Scores object whose smaller class has {n_min} scores does not give the replicates of '{want}' under the same seed"))
+            break
     hs = r.get("hashseed_runs")
     if hs and not all(o_.startswith("error") for o_ in hs) and len(set(hs)) > 1:
         fails.append(("C14/reproducible/across-processes",
